@@ -189,9 +189,12 @@ func logVia(l *zerolog.Logger, lvl zerolog.Level, i int) {
 			l.WithLevel(lvl).Msg("x")
 		}
 	case zerolog.NoLevel:
-		if i%2 == 0 {
+		switch i % 3 {
+		case 0:
 			l.Log().Msg("x")
-		} else {
+		case 1:
+			l.Write([]byte("x")) // the io.Writer adapter (stdlog.SetOutput(logger)): one event, one consultation
+		default:
 			l.WithLevel(lvl).Msg("x")
 		}
 	default:
